@@ -66,12 +66,28 @@ AxisIndex(sub) == CASE sub \in {"left", "right"} -> 1 [] sub \in {"ahead", "behi
 \* OrientedPoint target: the same in the frame of the OrientedPoint, whose orientation is inherited;
 \* Object target: the gap between the two bounding boxes along the target's local axis is D, or half
 \*   the NEW object's contactTolerance when D is absent; the target's orientation is inherited.
-DirGap(c) == IF c.by = "scalar" THEN c.D ELSE IF c.tk = "obj" THEN c.ct \div 2 ELSE 0
-DirLen(c) == LET ax == AxisIndex(c.sub) IN
+\* The gap: an explicit scalar D (INCLUDING 0 and 0.0: "the distance between their bounding boxes is exactly
+\* the desired scalar distance"); only when `by` is omitted, half the contactTolerance -- of the NEW object
+\* (class reference: "Objects are placed at half this distance away ... when a directional specifier like
+\* left of Object is used"; the reference object's own contactTolerance plays no role).  A vector D (form
+\* "by <scalar/vector>" of the specifier docstrings): its component along the specifier's axis is the gap, the
+\* other two components shift the object along the target's other local axes.
+\* c.ct is the lattice part of the new object's contactTolerance (scale 4); c.ctmicro its remainder in units
+\* of 1e-5 (the default contactTolerance 1e-4 is not on the lattice: ct = 0, ctmicro = 10).
+DirAx(c) == AxisIndex(c.sub)
+DirGap(c) == IF c.by = "scalar" THEN c.D
+             ELSE IF c.by = "vector" THEN c.V[DirAx(c)]
+             ELSE IF c.tk = "obj" THEN c.ct \div 2 ELSE 0
+DirGapMicro(c) == IF c.by = "none" /\ c.tk = "obj" THEN c.ctmicro \div 2 ELSE 0        \* in 1e-5 units
+DirLateral(c) == IF c.by = "vector" THEN [c.V EXCEPT ![DirAx(c)] = 0] ELSE Zero3
+DirLen(c) == LET ax == DirAx(c) IN
              (IF c.tk = "obj" THEN c.rdim[ax] \div 2 ELSE 0) + DirGap(c) + c.ndim[ax] \div 2
+DirOffset(c) == VAdd(VScale(DirLen(c), AxisOf(c.sub)), DirLateral(c))
 DirFrame(c) == IF c.tk = "vec" THEN QMul(Rot(c.par), Own(c.own)) ELSE Rot(c.ref)
 DirRot(c) == IF c.tk = "vec" THEN QMul(Rot(c.par), Own(c.own)) ELSE QMul(Rot(c.ref), Own(c.own))
-Directional(c) == Plain(Place(c.ref.p, DirFrame(c), VScale(DirLen(c), AxisOf(c.sub))), DirRot(c))
+Directional(c) == Plain(Place(c.ref.p, DirFrame(c), DirOffset(c)), DirRot(c))
+\* the off-lattice remainder of the position: DirFrame * (axis * micro), at scale DirFrame.d, in 1e-5 units
+DirMicro(c) == QApply(DirFrame(c), VScale(DirGapMicro(c), AxisOf(c.sub)))
 \* lemma: seen from the target (inverse of its orientation) the new object sits on the target's axis
 \* and, when aligned with it, the two boxes are exactly the gap apart
 DirLemma(c, e) ==
@@ -82,8 +98,9 @@ DirLemma(c, e) ==
              hi |-> VScale(F.d * F.d, <<c.rdim[1] \div 2, c.rdim[2] \div 2, c.rdim[3] \div 2>>)]
       nh == VScale(F.d * F.d, <<c.ndim[1] \div 2, c.ndim[2] \div 2, c.ndim[3] \div 2>>)
       nb == [lo |-> VSub(back, nh), hi |-> VAdd(back, nh)]
-  IN /\ back = VScale(F.d * F.d * DirLen(c), AxisOf(c.sub))
+  IN /\ back = VScale(F.d * F.d, DirOffset(c))
      /\ (c.tk = "obj" /\ c.own = <<0, 0, 0>>) => GapAlong(tb, nb, ax) = F.d * F.d * DirGap(c)
+     /\ (c.by = "scalar" /\ c.D = 0 /\ c.tk = "obj" /\ c.own = <<0, 0, 0>>) => BoxesTouch(tb, nb) \/ GapAlong(tb, nb, ax) = 0
 
 \* ------------------------------------------------------------------ beyond A by O from B
 \* "coordinates given by the second vector, in a local coordinate system centered at the first vector
@@ -341,5 +358,7 @@ DeviationScoped == IsCase => (exp.dev # "none" => ~QEq([m |-> exp.r, d |-> exp.r
 Emit == IsCase => PrintT(ToJson([id |-> C.id, e |-> exp, nc |-> IF C.kind = "facep" THEN FPNonCommuting(C) ELSE FALSE,
                                   up |-> IF C.kind = "on" /\ C.rk \in {"hollow", "objtop"} THEN OnResult(C).up ELSE <<>>,
                                   ups |-> IF C.kind = "on" /\ C.rk \in {"hollow", "objtop"} THEN OnResult(C).ups ELSE 0,
-                                  disc |-> IF C.kind = "on" THEN OnDiscriminating(C) ELSE FALSE]))
+                                  disc |-> IF C.kind = "on" THEN OnDiscriminating(C) ELSE FALSE,
+                                  pe |-> IF C.kind = "dir" THEN DirMicro(C) ELSE <<>>,
+                                  pes |-> IF C.kind = "dir" THEN DirFrame(C).d ELSE 0]))
 =============================================================================
